@@ -452,6 +452,115 @@ def opSP (args obs : List String) : P String := do
     pure (reply (decide ([model] = obs)) (decide ([want] = obs)) [model])
   | _ => throw "SP: arity"
 
+def pBitOp (s : String) : P BitOp :=
+  match s with
+  | "and" => pure .and
+  | "or" => pure .or
+  | "xor" => pure .xor
+  | _ => throw s!"bad bitop {s}"
+
+/-- `BW <op=inv|and|or|xor> <kind=ff|fm|mf|-> <fx> <fy> <o> [a..] [b..] | s n f [codes]`
+bitwise operator; `ff`: both operands Fxp (different word lengths are rejected), `fm`/`mf`: integer mask on
+the right / left. Spec (relational): result has x's format and its pattern is the bitwise combination of the
+operands' n_word-bit patterns. -/
+def opBW (args obs : List String) : P String := do
+  match args with
+  | [op, kind, sx, nx, fx, sy, ny, fy, o, as, bs] =>
+    let x ← pFmt sx nx fx
+    let y ← pFmt sy ny fy
+    let o ← pOverflow o
+    let as ← pList pInt as
+    let bs ← pList pInt bs
+    if kind == "ff" && (bitwiseFxp .and x y o 0 0).isNone then
+      pure (reply (isExc obs) (isExc obs) ["ERR"])
+    else
+      let (model, pats) ← if op == "inv" then
+          pure (as.map (invertM x o), as.map (fun a => 2 ^ x.nword - 1 - upat x.nword a))
+        else do
+          let bo ← pBitOp op
+          match bcast (fun a b => (bitwiseM bo x o a b, bitop bo (upat x.nword a) (upat x.nword b))) as bs with
+          | some l => pure (l.map (·.1), l.map (·.2))
+          | none => throw "BW: shapes"
+      let m := [showSigned x.signed, toString x.nword, toString x.nfrac, showList toString model]
+      match obs with
+      | [os, on, of, cs] =>
+        match pList pInt cs with
+        | .ok cs =>
+          let s := [os, on, of] == [showSigned x.signed, toString x.nword, toString x.nfrac] &&
+            zipAll (fun (c : Int) (p : Nat) => decide (x.lo ≤ c ∧ c ≤ x.hi) && upat x.nword c == p) cs pats
+          pure (reply (decide (m = obs)) s m)
+        | .error _ => pure (reply false false m)
+      | _ => pure (reply false false m)
+  | _ => throw "BW: arity"
+
+/-- `BL <fx> <sy> [a..] [b..] | [~~x] [~(x&y)] [~x|~y] [~(x|y)] [~x&~y] [~x]` — laws evaluated on the
+implementation's outputs: double inversion, De Morgan, and code(~x) = -code(x) - 1 for signed `x`. -/
+def opBL (args obs : List String) : P String := do
+  match args with
+  | [sx, nx, fx, sy, as, bs] =>
+    let x ← pFmt sx nx fx
+    let y : Fmt := ⟨sy == "s", x.nword, x.nfrac⟩
+    let as ← pList pInt as
+    let bs ← pList pInt bs
+    let o := Overflow.saturate
+    let inv := invertM x o
+    let nn := as.map (fun a => inv (inv a))
+    let l1 ← match bcast (fun a b => inv (bitwiseM .and x o a b)) as bs with | some l => pure l | none => throw "BL"
+    let l2 ← match bcast (fun a b => bitwiseM .or x o (inv a) (invertM y o b)) as bs with | some l => pure l | none => throw "BL"
+    let l3 ← match bcast (fun a b => inv (bitwiseM .or x o a b)) as bs with | some l => pure l | none => throw "BL"
+    let l4 ← match bcast (fun a b => bitwiseM .and x o (inv a) (invertM y o b)) as bs with | some l => pure l | none => throw "BL"
+    let l5 := as.map inv
+    let l6 := as.map (fun a => if x.signed then -a - 1 else inv a)
+    let sh := showList (toString : Int → String)
+    let m := [sh nn, sh l1, sh l2, sh l3, sh l4, sh l5]
+    match obs with
+    | [o0, o1, o2, o3, o4, o5] =>
+      pure (reply (decide (m = obs)) (o0 == sh as && o1 == o2 && o3 == o4 && o5 == sh l6) m)
+    | _ => pure (reply false false m)
+  | _ => throw "BL: arity"
+
+def valuesOf (f : Fmt) (cs : List Int) : List Rat := cs.map (valueOf f)
+
+/-- `SF <dir=l|r> <mode=expand|trunc|keep> <cfg overflow> <fx> <n> [codes] | s n f [codes'] ov un unchanged`
+Spec (relational): expand: values are exactly `x·2^±n`, no flag; keep/trunc: same format, `>>` is the floor
+shift, `<<` is exact when representable and otherwise clamped or wrapped; operand unchanged. -/
+def opSF (args obs : List String) : P String := do
+  match args with
+  | [dir, mode, _o, sx, nx, fx, n, cs] =>
+    let x ← pFmt sx nx fx
+    let n ← pNat n
+    let cs ← pList pInt cs
+    let (g, out) := if dir == "r" then
+        (if mode == "expand" then rshiftExpand x cs n else (x, rshiftKeep cs n))
+      else
+        (if mode == "expand" then lshiftExpand x cs n else (x, lshiftKeep x cs n))
+    let fl := if dir == "l" then
+        (cs.any (fun c => decide (g.hi < c * 2 ^ n)), cs.any (fun c => decide (c * 2 ^ n < g.lo)))
+      else (false, false)
+    let m := [showSigned g.signed, toString g.nword, toString g.nfrac, showList toString out,
+              showBool fl.1, showBool fl.2, "1"]
+    match obs with
+    | [os, on, of, ocs, ov, un, unch] =>
+      match pFmt os on of, pList pInt ocs with
+      | .ok og, .ok ocs =>
+        let s : Bool :=
+          unch == "1" && ocs.length == cs.length &&
+          (if mode == "expand" then
+            ov == "0" && un == "0" && og.signed == x.signed &&
+            zipAll (fun (c : Int) (oc : Int) =>
+              decide (og.lo ≤ oc ∧ oc ≤ og.hi) &&
+              decide (valueOf og oc = (if dir == "l" then valueOf x c * 2 ^ n else valueOf x c / 2 ^ n))) cs ocs
+          else
+            decide (og = x) &&
+            zipAll (fun (c : Int) (oc : Int) =>
+              if dir == "r" then decide (oc = Int.shiftRight c n)
+              else if decide (x.lo ≤ c * 2 ^ n ∧ c * 2 ^ n ≤ x.hi) then decide (oc = c * 2 ^ n)
+              else decide (oc = sat x (c * 2 ^ n) ∨ oc = wrap x (c * 2 ^ n))) cs ocs)
+        pure (reply (decide (m = obs)) s m)
+      | _, _ => pure (reply false false m)
+    | _ => pure (reply false false m)
+  | _ => throw "SF: arity"
+
 /-- `UN <op=neg|pos|abs> <fx> [codes] | s n f [codes]` — unary operators build a default-config object. -/
 def opUN (args obs : List String) : P String := do
   match args with
@@ -486,6 +595,9 @@ def dispatch (op : String) (args obs : List String) : P String :=
   | "NC" => opNC args obs
   | "DR" => opDR args obs
   | "SB" => opSB args obs
+  | "BW" => opBW args obs
+  | "BL" => opBL args obs
+  | "SF" => opSF args obs
   | "SH" => opSH args obs
   | "SR" => opSR args obs
   | "SP" => opSP args obs
